@@ -31,6 +31,7 @@ Decides:
  U.purity     ambient effects (env, args, process, fs, time, io, thread_local) only at listed sites; no statics; no
               interior mutability (Cell/RefCell/Mutex/Atomic/UnsafeCell/OnceCell) in any crate type; Parser::eval and
               meta take &self; run_inner builds a fresh State from its argument.
+ E exit sites      words right of `--` never reach the completion scanner (whose markers lead to process::exit): the pos_only test comes first (shared with C09).
 Does not decide: arithmetic facts the audit asserts (e.g. PADDING[..n]); user closures / FromStr assumed total."""
 import re, json
 from core import *
@@ -44,7 +45,7 @@ EXPLANATION = __doc__
 ASSUMPTIONS = ['user closures, FromStr impls and third-party Parser impls are total and pure',
                'std collections/iterators behave as documented; allocation failure and stack exhaustion on adversarially deep parser trees are out of scope',
                'audit/panic_audit.json reasons were established by reading the code (value-level arithmetic is asserted there, not re-derived)']
-FLOORS = {'P.census': 64, 'P.grow': 28, 'P.str-index': 12, 'P.nonempty': 6, 'P.dead-arm': 1, 'P.exit': 3, 'I.invariant': 3, 'T.loops': 83, 'T.recursion': 9, 'G.group-flag': 3, 'U.purity': 21}
+FLOORS = {'P.census': 64, 'P.grow': 28, 'P.str-index': 12, 'P.nonempty': 6, 'P.dead-arm': 1, 'P.exit': 3, 'I.invariant': 3, 'T.loops': 83, 'T.recursion': 9, 'G.group-flag': 3, 'U.purity': 21, 'E.exit-sites': 2}
 
 AUDIT = json.load(open(os.path.join(VERIF, 'audit/panic_audit.json')))['functions']
 
